@@ -653,3 +653,45 @@ def prove_eq_by_reduction(ctx: Ctx, goals, timeout_ms=20000, extra=(), rounds=2,
             if r == "unknown":
                 STATS["unknown"] += 1
             g.detail = f"reduction left {len(rem.t)} terms; LIN {r} with {len(used)}+{len(extra_lemmas)} lemmas"
+
+
+def consistent(ctx: Ctx, timeout_ms=10000) -> str:
+    """vacuity guard: the (abstracted) assumptions and path condition must not be contradictory.
+    Returns 'sat' / 'unknown' / 'unsat'."""
+    L = Lin(ctx, timeout_ms=timeout_ms)
+    allA = list(ctx.assumptions) + ctx.path_assumptions()
+    for a in allA:
+        L.note_var_facts(a)
+    for a in allA:
+        if a.p.has_I():
+            continue
+        L.s.add(L.atom(a.kind, a.p))
+    return str(L.s.check())
+
+
+def witness_contract_residual(ctx: Ctx):
+    """largest relative residual of the equality assumptions at the witness valuation (stub contracts evaluated on
+    what the REAL routines returned): translation validation of the stubs"""
+    worst, tag = 0.0, ""
+    for a in ctx.assumptions:
+        if a.kind != "eq":
+            continue
+        try:
+            v = ctx.eval(a.p)
+        except Exception:
+            return None, ""
+        v = abs(v)
+        mag = 1.0
+        for m, c in a.p.t.items():
+            x = abs(float(c))
+            try:
+                for vv, e in m:
+                    if vv != 0:
+                        x *= abs(ctx.value_of(vv)) ** e
+            except Exception:
+                return None, ""
+            mag = max(mag, x)
+        r = v / mag
+        if r > worst:
+            worst, tag = r, a.tag
+    return worst, tag
